@@ -2,6 +2,7 @@ package main
 
 import (
 	"bytes"
+	"fmt"
 	"context"
 	"os"
 	"os/exec"
@@ -80,8 +81,26 @@ func runSolver(s solverSpec, file string, ms int) solveOut {
 
 // solveObligation races the portfolio on one obligation; the first definitive answer wins.
 func solveObligation(o *Obligation, dir string, timeoutMs int, agree bool) {
+	scripts := append([]string{o.Script}, o.More...)
+	var total int64
+	for i, sc := range scripts {
+		solveOne(o, sc, i, dir, timeoutMs, agree)
+		total += o.Ms
+		if o.Result != o.Expect {
+			if len(scripts) > 1 {
+				o.Detail = fmt.Sprintf("[path %d of %d] %s", i+1, len(scripts), o.Detail)
+			}
+			break
+		}
+	}
+	o.Ms = total
+}
+
+func solveOne(o *Obligation, script string, idx int, dir string, timeoutMs int, agree bool) {
 	file := filepath.Join(dir, sanitize(o.Name)+".smt2")
-	script := o.Script
+	if idx > 0 {
+		file = filepath.Join(dir, sanitize(o.Name)+fmt.Sprintf(".p%d.smt2", idx+1))
+	}
 	if o.Expect == "unsat" {
 		script += "(get-model)\n"
 	}
